@@ -1,6 +1,7 @@
 # -*- coding: utf-8 -*-
 """C17 Rerun file lists exactly the unsuccessful scenarios; fed back it selects them."""
 from .. import rules_rerun, rules_location
+from . import common as T
 
 EXPLANATION = (
     "Static analysis. Q1/Q2: RerunFormatter.eof evaluated abstractly for a feature in every failed/error-class status "
@@ -29,5 +30,7 @@ def run(chk, ix, tier):
     rules_location.check_add_location_and_clear(chk, ix)
     rules_location.check_walk_scenarios(chk, ix, "L10")
     rules_rerun.check_outfile_mode(chk, ix)
-    for r, n in (("B1", 1), ("B4", 1), ("Q1", 6), ("Q3", 8), ("Q4", 6), ("Q5", 3), ("L4", 6), ("L8", 3), ("L10", 3), ("Q6", 1)):
+    # what the rerun formatter reads at the end is the scenario's FINAL status: a failed hook leaves hook_error cached (R4)
+    T.t_scenario(chk, ix, ("R4",))
+    for r, n in (("B1", 1), ("B4", 1), ("Q1", 6), ("Q3", 8), ("Q4", 6), ("Q5", 3), ("L4", 6), ("L8", 3), ("L10", 3), ("Q6", 1), ("R4", 1)):
         chk.require_instances(r, n)
